@@ -3,6 +3,7 @@
   Property theorems only; helper lemmas live in `Miden/Lemmas/Batch.lean`.
 -/
 import Miden.Lemmas.Batch
+import Miden.Lemmas.BatchDecode
 import Miden.Model.Mast
 import Miden.Generated.OpTableLinked
 
@@ -51,6 +52,52 @@ theorem span_hash_spec (ops : List Op) :
     ((batchOps ops).flatMap (·.groups)).length = 8 * (batchOps ops).length := by
   refine ⟨rfl, ?_⟩
   exact groups_length ops
+
+/-- Groups decode back to the operations: reading `opCounts[i]` seven-bit opcodes (least significant
+    first) out of every group `i` of a batch, in group order, yields exactly the opcodes of the batch's
+    operations - for every operation sequence. Groups that hold immediates have count 0. -/
+theorem batch_decode (ops : List Op) :
+    ∀ b ∈ batchOps ops, codesOf b.groups b.opCounts = b.ops.map Op.code :=
+  batchOps_decodes ops
+
+/-- Whole span: the groups of all batches decode to the opcode sequence of the span. -/
+theorem span_decode (ops : List Op) :
+    (batchOps ops).flatMap (fun b => codesOf b.groups b.opCounts) = ops.map Op.code := by
+  have h : ∀ bs : List OpBatch, (∀ b ∈ bs, codesOf b.groups b.opCounts = b.ops.map Op.code) →
+      bs.flatMap (fun b => codesOf b.groups b.opCounts) = (bs.flatMap (·.ops)).map Op.code := by
+    intro bs
+    induction bs with
+    | nil => intro _; rfl
+    | cons b bs ih =>
+      intro hb
+      simp only [List.flatMap_cons, List.map_append]
+      rw [hb b (by simp), ih (fun b' hb' => hb b' (by simp [hb']))]
+  rw [h _ (batch_decode ops), batch_total]
+
+/-- Up to NOOP padding: the slots of an operation group beyond its operation count hold opcode 0
+    (NOOP), so decoding all nine slots of the group yields its operations followed by NOOPs only. -/
+theorem batch_padding_is_noop (ops : List Op) :
+    ∀ b ∈ batchOps ops, ∀ i, b.opCounts.getD i 0 ≠ 0 →
+      decodeGroup 9 (b.groups.getD i 0)
+        = decodeGroup (b.opCounts.getD i 0) (b.groups.getD i 0)
+          ++ List.replicate (9 - b.opCounts.getD i 0) 0 := by
+  intro b hb i hi
+  have hlt := batchOps_pad ops b hb i hi
+  have hle : b.opCounts.getD i 0 ≤ 9 := by
+    have hw := (batch_wf ops b hb).2.2.2.2
+    by_cases hlen : i < b.opCounts.length
+    · have := hw (b.opCounts[i]) (List.getElem_mem hlen)
+      simpa [List.getD_eq_getElem?_getD, List.getElem?_eq_getElem hlen] using this
+    · exfalso
+      apply hi
+      simp [List.getD_eq_getElem?_getD, List.getElem?_eq_none (by omega : b.opCounts.length ≤ i)]
+  have := decodeGroup_pad (b.opCounts.getD i 0) (9 - b.opCounts.getD i 0) (b.groups.getD i 0) hlt
+  rwa [Nat.add_sub_cancel' hle] at this
+
+-- Non-vacuity: a batch with pushes (immediate groups have count 0) and a partially filled last group.
+example : (batchOps [Op.push 1, .add, .push 2, .mul]).map (fun b => (b.groups, b.opCounts, codesOf b.groups b.opCounts))
+    = [([(100 + 34 * 128 + 100 * 128 ^ 2 + 35 * 128 ^ 3), 1, 2, 0, 0, 0, 0, 0], [4, 0, 0, 0, 0, 0, 0, 0], [100, 34, 100, 35])] := by
+  decide
 
 -- Non-vacuity: a concrete span with pushes crossing a group boundary satisfies the statements.
 example : (batchOps [Op.push 1, .add, .push 2, .push 3, .push 4, .push 5, .push 6, .push 7,
